@@ -460,8 +460,8 @@ def apalache_groups(ctx, props_module, dep_files, schema, cinit_body, jobs, para
             return [base]
         h = len(events) // 2
         bad = find_bad(label, events[:h], pred, base, depth + 1)
-        if len(bad) >= 3:
-            return bad
+        if len(bad) >= 1:
+            return bad      # one offending event per group is enough for a verdict
         return bad + find_bad(label, events[h:], pred, base + h, depth + 1)
 
     res = {}
